@@ -28,7 +28,18 @@ def leaf_impl(node):
     if "p" in node:
         return build_checked(node["p"])
     if "a" in node:
-        return numpy.array(_declist(node["a"]), dtype=node.get("d"))
+        x = numpy.array(_declist(node["a"]), dtype=node.get("d"))
+        lay = node.get("o")
+        if lay == "F":
+            x = numpy.asfortranarray(x)
+        elif lay == "rev" and x.ndim:
+            idx = (slice(None, None, -1),) * x.ndim
+            x = numpy.ascontiguousarray(x[idx])[idx]     # same values, negative strides
+        elif lay == "ro":
+            x.setflags(write=False)
+        elif lay == "T" and x.ndim >= 2:
+            x = numpy.ascontiguousarray(x.T).T
+        return x
     if "l" in node:
         return _declist(node["l"])
     if "s" in node:
